@@ -118,6 +118,7 @@ Seeds == <<
   [n |-> "lambda-match-captured", t |-> "let v = 3\nlet f = (q: int) -> match v { 1 -> -9, _ -> 4 }"],
   [n |-> "impl-for-unparsable-type", t |-> "implement ToString forfn self)\"Person(\""],
   [n |-> "try-impl-with-syntax-error", t |-> "type St = | Bad | Good\nimplement Try for St {\n fn branch(self) -> ControlFlow<St, St> {\n match self {\n .Bad -> .Break(self)\n .Good -> .Continueself)\n }\n }\n fn from_residual(r: St) -> St { r }\n}\nfn t() -> St {\n St.Good?\n St.Bad\n}\n"],
+  [n |-> "array-without-type-argument", t |-> "let a: array<> = [1]\na[0]"],
   [n |-> "unterminated-multiline-string", t |-> "\"\"\"a\n\n"],
   [n |-> "empty",               t |-> ""],
   [n |-> "hello",               t |-> "println(\"hello\")"]
